@@ -448,6 +448,12 @@ fn run<A: Cont>(len: usize, toks: &[&str]) -> String {
                         Err(_) => "err".into(),
                     }
                 }
+                // failsys — an unrelated system call of the application fails on this thread (errno stays set): must not influence anything
+                "failsys" => {
+                    let r = unsafe { libc::open(b"/nonexistent/verif-no-such-file\0".as_ptr() as *const libc::c_char, libc::O_RDONLY) };
+                    let _ = std::fs::read("/nonexistent/verif-no-such-file");
+                    if r < 0 { "ok".into() } else { "err".into() }
+                }
                 // rawmlock — the APPLICATION locks the region's pages itself (libc::mlock on the container's buffer, behind the crate's back;
                 // the same situation as a process running under mlockall): releases must still wipe
                 "rawmlock" => {
